@@ -311,7 +311,16 @@ func runC15(env *Env) {
 	rep := &Report{Property: "C15",
 		Rule: "documents: generated definitions covering every supported flow-node kind (tasks, 4 gateway kinds with defaults at several positions, formal conditions in two languages, informal conditions, timer/signal/message/conditional definitions, boundary events, sub-process, olive extensions, data objects, collaboration) plus every bundled .bpmn file; each is parsed, marshalled, re-parsed, re-marshalled; non-trivial = contains an expression or an extension; distinct by document"}
 	var items []string
-	for _, doc := range c15Docs() {
+	type kept struct {
+		name string
+		d2   *schema.Definitions
+		x2   string
+	}
+	var keep []kept
+	docs := c15Docs()
+	// a document in another expression language, parsed last: earlier results must not change
+	docs = append(docs, c15Doc{"xpath-definitions", strings.Replace(c04Prog([]int{1, 0}, -1, 1, "").XML(""), "https://github.com/expr-lang/expr", "http://www.w3.org/1999/XPath", 1), nil})
+	for _, doc := range docs {
 		cs := "document " + doc.name
 		env.Current(cs)
 		rep.Evaluations++
@@ -347,6 +356,7 @@ func runC15(env *Env) {
 			rep.Violate("C15-roundtrip", cs, "re-parsed model differs: "+strings.Join(diffs, "; "))
 		}
 		x2, _ := xml.Marshal(d2)
+		keep = append(keep, kept{doc.name, d2, string(x2)})
 		if string(x1) != string(x2) {
 			rep.Violate("C15-roundtrip", cs, "second serialisation differs from the first")
 		}
@@ -382,7 +392,24 @@ func runC15(env *Env) {
 			rep.Sample(fmt.Sprintf("%s: %d bytes in, %d bytes out, %d ids", doc.name, len(doc.text), len(x1), len(ids)))
 		}
 	}
+	// models obtained earlier are independent of later parses (no shared state between documents)
+	for _, k := range keep {
+		x3, _ := xml.Marshal(k.d2)
+		if string(x3) != k.x2 {
+			rep.Violate("C15-shared-state", "document "+k.name+" re-serialised after all other documents were parsed",
+				"the re-parsed model changed when other documents were parsed later (first difference at byte "+fmt.Sprint(firstDiff(string(x3), k.x2))+")")
+		}
+	}
 	rep.Exhaustive = true
 	env.WriteCases(rep, "", "Corr.C15corr", "xml", items, "c15_mismatches")
 	env.WriteReport(rep)
+}
+
+func firstDiff(a, b string) int {
+	for i := 0; i < len(a) && i < len(b); i++ {
+		if a[i] != b[i] {
+			return i
+		}
+	}
+	return len(a)
 }
